@@ -1,7 +1,7 @@
 (* Generic lemmas about the two loops of Model/ObjCheckout.v: frame, prompt location, the
    characterisation of an all-successful run, the partition of the change list into classes. *)
 From Coq Require Import NArith List Bool Lia.
-From DvcData Require Import Base.Val Base.PyBase Gen.PyTypes Gen.ODiff Gen.Relink Model.ObjCheckout Proofs.ObjCheckoutProofs.
+From DvcData Require Import Base.Val Base.PyBase Gen.PyTypes Gen.ODiff Gen.Relink Model.ObjCheckout Proofs.ObjCoTie Proofs.ObjCheckoutProofs.
 Import ListNotations.
 Open Scope N_scope.
 
@@ -87,9 +87,9 @@ Proof.
   - injection E as <- <-. split; [now left|reflexivity].
 Qed.
 Lemma del_step_force g ch cur : g_force g = true -> del_step g ch cur = Some None.
-Proof. intros Hf. unfold del_step, guard_step, remove_guard. now rewrite Hf. Qed.
+Proof. intros Hf. unfold del_step, guard_step. rewrite remove_guard_eq. unfold remove_guard_spec. now rewrite Hf. Qed.
 Lemma guard_step_force g k inc cur : g_force g = true -> guard_step g k inc cur = Some None.
-Proof. intros Hf. unfold guard_step, remove_guard. now rewrite Hf. Qed.
+Proof. intros Hf. unfold guard_step. rewrite remove_guard_eq. unfold remove_guard_spec. now rewrite Hf. Qed.
 Lemma run_del_force g chs : g_force g = true -> forall w,
   snd (run_del g chs w) = None /\
   forall k, kassoc k (fst (run_del g chs w)) = if kmem k (keys chs) then None else kassoc k w.
